@@ -132,8 +132,12 @@ add("C14", "other",
 add("C13", "other",
     "Partial. Proved in Coq (PropC13.v) about the transactional lexer model and the Go-faithful combinator interpreter: "
     "Snapshot/Rollback restores position and stack, Snapshot/Commit keeps the position, replay below the write pointer returns "
-    "the cached token, Assert / Not / Ok consume nothing. The general refinement run_go = run_spec is open "
-    "(C13_comb_refines_spec_statement). Decided each run: all Next/Snapshot/Rollback/Commit sequences up to length 6 (9 thorough) "
+    "the cached token, Assert / Not / Ok consume nothing; and the refinement (CombProofs.v, C13_backtracking_is_invisible): for every "
+    "combinator expression over all 12 combinators and every fuel, the interpreter that issues Next/Snapshot/Commit/Rollback as the "
+    "Go closures do, over the replay cache, computes exactly what ordered choice computes on the plain token list (nodes, position "
+    "afterwards, error, panics, snapshot stack as found). The lexer below enters as a token source with two hypotheses of the "
+    "theorem (it delivers one fixed list in order and then reports the end), shown satisfiable by the concrete lexer model on an "
+    "example and compared on every run. Decided each run: all Next/Snapshot/Rollback/Commit sequences up to length 6 (9 thorough) "
     "and random longer ones on the real TLexer against the cursor specification; thousands of random parser expressions over all "
     "12 combinators run with the real combinators on the real TLexer and compared (nodes, error, position afterwards, snapshot "
     "balance) with the ordered-choice specification and with the interpreter model, inside Coq.", COMMON_NOTE,
